@@ -100,6 +100,13 @@ row_put = z3.Function("row_put", Row, smt.Tag, smt.IntS, Row)  # {**r, t: v}
 row_mask = z3.Function("row_mask", smt.TagSet, Row, Row)  # r restricted to a column set
 capp = z3.Function("capp", smt.Ref, Row, smt.IntS)  # value a callable returns on a row (truthiness: != 0)
 
+# the Sort arm of the iteration engine (contracts/sortarm.py)
+s_sortc = z3.Function("s_sortc", SeqRef.sort, smt.BoolS, RS, RS)  # rows.sort(key=tuple of the callables' values, reverse=not asc): stable
+tsuffix = z3.Function("tsuffix", SeqRef.sort, smt.IntS, SeqRef.sort)  # sort terms from index a on
+tslice = z3.Function("tslice", SeqRef.sort, smt.IntS, smt.IntS, SeqRef.sort)  # sort terms [a, b)
+den_terms = z3.Function("den_terms", SeqRef.sort, SeqRef.sort, smt.IntS, smt.IntS, smt.BoolS)  # callables denote the expressions of terms [a, b)
+same_dir = z3.Function("same_dir", SeqRef.sort, smt.IntS, smt.IntS, smt.BoolS, smt.BoolS)  # terms [a, b) all have this direction
+
 sem = z3.Function("sem", smt.Ref, RS, RS)  # unary operation applied to a row sequence
 bsem = z3.Function("bsem", smt.Ref, RS, RS, RS)  # binary operation
 
